@@ -39,11 +39,11 @@ ASSUMPTIONS = ["time spent inside Pygments' C regex engine produces no steps; a 
 BOUNDS = {"quick": dict(n=28, sizes=dict(canon=4, cut_programs=2, cut_cases=2400, mutated_programs=5, mutations=40,
                                          soups=1400, corpus_cuts=5, corpus_mutations=2), trees=2, cli=1),
           "thorough": dict(n=112, sizes=dict(canon=40, cut_programs=30, cut_cases=8000, mutated_programs=100, mutations=120,
-                                            soups=150000, corpus_cuts=100, corpus_mutations=30), trees=60, cli=10)}
+                                            soups=80000, corpus_cuts=60, corpus_mutations=20), trees=30, cli=6)}
 MINIMUM = {"quick": {"monitor.scan_file_calls": 25000, "monitor.check_command_calls": 300, "monitor.scan_path_calls": 50,
                      "monitor.scan_command_calls": 50, "monitor.cli_runs": 40},
-           "thorough": {"monitor.scan_file_calls": 1000000, "monitor.check_command_calls": 8000, "monitor.scan_path_calls": 2000,
-                        "monitor.scan_command_calls": 2000, "monitor.cli_runs": 1000}}
+           "thorough": {"monitor.scan_file_calls": 600000, "monitor.check_command_calls": 8000, "monitor.scan_path_calls": 1500,
+                        "monitor.scan_command_calls": 1500, "monitor.cli_runs": 1000}}
 PY = "/venv/bin/python"
 
 
